@@ -250,6 +250,14 @@ def replay_file(path, quiet=False):
     rec = json.load(open(path))
     prop = rec['property']
     eng = load_engine(prop)
+    # a violation that depends on process-wide state left behind by earlier,
+    # independent runs carries those runs as a prelude (run indices of the same
+    # VERIF_SEED / tier, regenerated from the seed)
+    for j in rec.get('prelude_indices', []):
+        try:
+            _run_index(prop, rec['tier'], rec['verif_seed'], j)
+        except Exception:  # pylint: disable=broad-except
+            pass
     res = eng.run_case(rec['case'], prop)
     sigs = [v.sig for v in res.get('violations', [])]
     if not quiet:
@@ -280,6 +288,45 @@ def fresh_replay(path, sig):
         [sys.executable, os.path.join(ROOT, 'check.py'), '--replay', path],
         capture_output=True, text=True, env=env, timeout=900)
     return (f'REPRODUCED signature={sig}' in p.stdout), p.stdout + p.stderr
+
+
+def _replay_with_history(path, sig, i, chunk):
+    """The case alone does not reproduce in a fresh interpreter: replay it after
+    the runs that preceded it in its worker (its own chunk first, then a longer
+    prefix), reporting the original, unminimised case; the prelude is then cut
+    down by halving while the violation persists."""
+    rec = json.load(open(path))
+    rec['case'] = rec.get('original_case', rec['case'])
+    start = (i // chunk) * chunk
+    for prelude in (list(range(start, i)), list(range(max(0, i - 4 * chunk), i)),
+                    list(range(max(0, i - 3000), i))):
+        if not prelude:
+            continue
+        rec['prelude_indices'] = prelude
+        json.dump(rec, open(path, 'w'), indent=1, default=repr)
+        ok, _ = fresh_replay(path, sig)
+        if ok:
+            break
+    else:
+        rec.pop('prelude_indices', None)
+        json.dump(rec, open(path, 'w'), indent=1, default=repr)
+        return False
+    # cut the prelude down (bounded number of fresh replays)
+    tests = 0
+    while len(prelude) > 1 and tests < 14:
+        half = len(prelude) // 2
+        for cand in (prelude[half:], prelude[:half]):
+            tests += 1
+            rec['prelude_indices'] = cand
+            json.dump(rec, open(path, 'w'), indent=1, default=repr)
+            if fresh_replay(path, sig)[0]:
+                prelude = cand
+                break
+        else:
+            break
+    rec['prelude_indices'] = prelude
+    json.dump(rec, open(path, 'w'), indent=1, default=repr)
+    return fresh_replay(path, sig)[0]
 
 
 # ---------------------------------------------------------------------------
@@ -593,6 +640,12 @@ def run_check(prop, tier, vseed, a):
                            'original_case': o['case']}, open(path, 'w'), indent=1,
                           default=repr)
                 ok, out = fresh_replay(path, sig)
+                if not ok:
+                    ok = _replay_with_history(path, sig, i, chunk)
+                    if ok:
+                        v = dict(v, msg=v['msg'] + ' [only after the earlier independent runs listed '
+                                 'as prelude_indices in the replay file: the library keeps '
+                                 'process-wide state across unrelated objects]')
                 if ok:
                     reported.append((sig, path, v))
                 else:
